@@ -110,7 +110,9 @@ class GenericSystemRegistry(
             if name not in self._systems:
                 raise ValueError("Unknown system %s" % name)
 
-            self._base_units_cache = {}
+        # The cache holds base units of the default system: any change of it,
+        # including to "no system", makes the cached entries wrong.
+        self._base_units_cache = {}
 
         self._default_system_name = name
 
